@@ -150,9 +150,9 @@ def predictions(prog):
         try:
             out[name] = progs.Ref(cells=cells, hoist=hoist).run(prog)
         except progs.StepLimit:
-            out[name] = None
+            out[name] = None if name == "faithful" else "diverges"
         except RecursionError:
-            out[name] = None
+            out[name] = None if name == "faithful" else "diverges"
     return out
 
 
@@ -177,6 +177,12 @@ def classify(observed, preds, what):
     if o == proj(preds["faithful"]):
         return None
     for name in ("cells", "hoist", "cells+hoist"):
+        if preds[name] == "diverges":
+            # the defect model itself recurses without bound (a closure that observes a later rebinding of a loop local which holds
+            # the closure): predicted outcome is unbounded recursion
+            if observed[0] == ("exc", "RecursionError") or observed[0][0] == "timeout":
+                return ("known", name)
+            continue
         if preds[name] is not None and o == proj(preds[name]):
             return ("known", name)
     return ("new", None)
